@@ -322,6 +322,10 @@ def b_scenarios(thorough):
            ('observer-2subj-rev', {}, {'stage0.S1': 8.0, 'stage0.S2': 14.0}),
            ('observer-2subj', {}, {'stage0.A': 9.0, 'stage0.S1': 17.0, 'stage0.S2': 20.0}),
            ('xobserver', {}, {'stage0.A': 12.0}), ('xobs-mixed', {}, {'stage0.P': 5.0, 'stage1.S': 12.0}),
+           ('xobs-mixed', {}, {'stage0.P': 5.0, 'stage1.S': 12.0}, {'stage1.S': 'exit'}),
+           ('xobs-samename', {}, {'stage1.G': 20.0}), ('xobs-samename-rev', {}, {'stage1.G': 20.0}),
+           ('xobs-samename', {}, {'stage0.G': 6.0, 'stage1.G': 20.0}, {'stage1.G': 'exit'}),
+           ('xobs-samename-rev', {}, {'stage0.G': 6.0, 'stage1.G': 20.0}, {'stage1.G': 'exit'}),
            ('observer', {'stage0.B': 'RS'}, {'stage0.B': 8.0}), ('observer-2subj', {'stage0.S2': 'RS'}, {'stage0.S1': 7.0, 'stage0.S2': 8.0})]
     if thorough:
         out += [('observer-2subj', {}, {'stage0.S1': a, 'stage0.S2': b}) for a in (0.0, 4.0, 9.0, 16.0) for b in (0.0, 4.0, 9.0, 16.0)]
